@@ -1,3 +1,12 @@
+"""Witness for the C24 side finding (unchanged tree): client replay of a plain-HTTP flow that was RECORDED in upstream mode,
+while mitmproxy currently runs in regular / reverse mode with `upstream_auth` set.  clientplayback.ReplayHandler keeps the
+recorded flow.client_conn (proxy_mode = UpstreamMode) but sends the request directly to the origin (HTTPMode.transparent, no via);
+UpstreamAuth.requestheaders looks at the recorded proxy_mode and adds Proxy-Authorization -> the upstream credentials reach the origin.
+
+Run:  cd /repo && PYTHONPATH=/verif:/repo /venv/bin/python /verif/proposed/C24-client-replay-witness.py
+Unchanged tree: the 'regular' and 'reverse' runs show `Proxy-Authorization: Basic ...` on the connection to ('origin.test', 80).
+With proposed/C24-client-replay-uses-current-mode.diff only the run in upstream mode (connection to the proxy) carries it.
+"""
 import random, asyncio
 from mitmproxy.addons.upstream_auth import UpstreamAuth
 from mitmproxy.addons.clientplayback import ReplayHandler
